@@ -164,4 +164,95 @@ theorem fmod_fin (a b : Nat) (ha : Finite a) (hb : Finite b) (hb0 : toReal b ≠
       exact mul_le_mul_of_nonneg_right this (by positivity)
     exact round_abs_le n1 r e m2 e2 hm2lt he2 hbfit hle
 
+/-- the remainder is exact: `fmod a b = a - k b` for a natural `k`, in `[0, b)`, for `a ≥ 0` and `0 < b < 2^127` -/
+theorem fmod_val (a b : Nat) (ha : Finite a) (hb : Finite b) (ha0 : 0 ≤ toReal a) (hb0 : 0 < toReal b) (hbfit : toReal b < (2:ℝ) ^ (127:ℤ)) :
+    ∃ k : ℕ, Finite (fmod a b) ∧ toReal (fmod a b) = toReal a - (k:ℝ) * toReal b ∧ 0 ≤ toReal (fmod a b) ∧ toReal (fmod a b) < toReal b := by
+  obtain ⟨n1, m1, e1, h1⟩ := ha
+  obtain ⟨n2, m2, e2, h2⟩ := hb
+  have hm2 : m2 ≠ 0 := by intro h; rw [toReal_of_decode b _ _ _ h2, h, valR_zero] at hb0; exact lt_irrefl _ hb0
+  have hn2 : n2 = false := by
+    cases n2
+    · rfl
+    · rw [toReal_of_decode b _ _ _ h2] at hb0; unfold valR at hb0
+      have : (0:ℝ) ≤ (m2:ℝ) * (2:ℝ) ^ e2 := by positivity
+      simp at hb0; linarith
+  have hm1lt := decode_mant_lt a _ _ _ h1
+  have hm2lt := decode_mant_lt b _ _ _ h2
+  have hexp : ∀ (c : Nat) (n : Bool) (m : Nat) (e : Int), decode c = .fin n m e → -149 ≤ e := by
+    intro c n m e h
+    unfold decode at h
+    simp only [consts.2.2.1, consts.2.2.2.2.2.1, consts.2.2.2.1] at h
+    split at h
+    · split at h <;> cases h
+    · split at h
+      · injection h with _ _ he; omega
+      · injection h with _ _ he; omega
+  have he1 := hexp a _ _ _ h1
+  have he2 := hexp b _ _ _ h2
+  have htb : toReal b = (m2:ℝ) * (2:ℝ) ^ e2 := by rw [toReal_of_decode b _ _ _ h2, hn2]; unfold valR; simp
+  -- a is non-negative: either its sign is + or its significand is 0
+  have hta : toReal a = (m1:ℝ) * (2:ℝ) ^ e1 ∧ (n1 = true → m1 = 0) := by
+    rw [toReal_of_decode a _ _ _ h1]
+    cases n1
+    · exact ⟨by unfold valR; simp, by intro h; cases h⟩
+    · have hv : valR true m1 e1 = -((m1:ℝ) * (2:ℝ) ^ e1) := by unfold valR; simp
+      rw [toReal_of_decode a _ _ _ h1, hv] at ha0
+      have hp : (0:ℝ) ≤ (m1:ℝ) * (2:ℝ) ^ e1 := by positivity
+      have hz : (m1:ℝ) * (2:ℝ) ^ e1 = 0 := by linarith
+      have hm0 : m1 = 0 := by
+        have h2e : (2:ℝ) ^ e1 ≠ 0 := by positivity
+        have := (mul_eq_zero.mp hz).resolve_right h2e
+        exact_mod_cast this
+      exact ⟨by rw [hv, hm0]; simp, fun _ => hm0⟩
+  set e := Min.min e1 e2 with hedef
+  set x := m1 * 2 ^ (e1 - e).toNat with hxdef
+  set y := m2 * 2 ^ (e2 - e).toNat with hydef
+  have hy : 0 < y := Nat.mul_pos (Nat.pos_of_ne_zero hm2) (Nat.pow_pos (by norm_num))
+  have hxR : ((x:ℕ):ℝ) * (2:ℝ) ^ e = (m1:ℝ) * (2:ℝ) ^ e1 := natpow_zpow m1 e1 e (min_le_left _ _)
+  have hyR : ((y:ℕ):ℝ) * (2:ℝ) ^ e = (m2:ℝ) * (2:ℝ) ^ e2 := natpow_zpow m2 e2 e (min_le_right _ _)
+  have hform : fmod a b = (if x % y = 0 then signBit n1 else roundPack n1 (x % y) e) := by
+    unfold fmod; rw [h1, h2]; simp only [hm2, if_false]; rfl
+  have hdm := Nat.div_add_mod x y
+  have hr : x % y < y := Nat.mod_lt _ hy
+  have hrlt : x % y < 16777216 := by
+    rcases le_total e1 e2 with h | h
+    · have : e = e1 := min_eq_left h
+      have hx' : x = m1 := by rw [hxdef, this]; simp
+      have : x % y ≤ x := Nat.mod_le _ _
+      omega
+    · have : e = e2 := min_eq_right h
+      have hy' : y = m2 := by rw [hydef, this]; simp
+      omega
+  have hval : ((x % y : ℕ) : ℝ) * (2:ℝ) ^ e = toReal a - ((x / y : ℕ) : ℝ) * toReal b := by
+    rw [hta.1, htb, ← hxR, ← hyR]
+    have : (x:ℝ) = (y:ℝ) * ((x / y : ℕ):ℝ) + ((x % y : ℕ):ℝ) := by exact_mod_cast hdm.symm
+    rw [this]; ring
+  have hlt : ((x % y : ℕ) : ℝ) * (2:ℝ) ^ e < toReal b := by
+    rw [htb, ← hyR]
+    have : ((x % y : ℕ):ℝ) < (y:ℝ) := by exact_mod_cast hr
+    exact mul_lt_mul_of_pos_right this (by positivity)
+  have hnn : (0:ℝ) ≤ ((x % y : ℕ) : ℝ) * (2:ℝ) ^ e := by positivity
+  refine ⟨x / y, ?_⟩
+  rw [hform]
+  by_cases hr0 : x % y = 0
+  · rw [if_pos hr0]
+    rw [hr0] at hval
+    refine ⟨⟨_, _, _, decode_signBit n1⟩, ?_, ?_, ?_⟩
+    · rw [toReal_of_decode _ _ _ _ (decode_signBit n1), valR_zero, ← hval]; simp
+    · rw [toReal_of_decode _ _ _ _ (decode_signBit n1), valR_zero]
+    · rw [toReal_of_decode _ _ _ _ (decode_signBit n1), valR_zero]; exact hb0
+  · rw [if_neg hr0]
+    have hn1 : n1 = false := by
+      cases n1
+      · rfl
+      · exfalso
+        have := hta.2 rfl
+        have hx0 : x = 0 := by rw [hxdef, this]; simp
+        rw [hx0] at hr0; simp at hr0
+    obtain ⟨m', e', hd, hv⟩ := roundPack_exact n1 (x % y) e hrlt (le_min he1 he2) (lt_trans hlt hbfit)
+    refine ⟨⟨_, _, _, hd⟩, ?_, ?_, ?_⟩
+    · rw [toReal_of_decode _ _ _ _ hd, hn1]; unfold valR; simp only [Bool.false_eq_true, if_false, one_mul]; rw [hv, hval]
+    · rw [toReal_of_decode _ _ _ _ hd, hn1]; unfold valR; simp only [Bool.false_eq_true, if_false, one_mul]; rw [hv]; exact hnn
+    · rw [toReal_of_decode _ _ _ _ hd, hn1]; unfold valR; simp only [Bool.false_eq_true, if_false, one_mul]; rw [hv]; exact hlt
+
 end F32
